@@ -263,6 +263,10 @@ class EditDistance(SequenceEdit):
                     ret = False
                 if not ret:
                     self._cleanup()
+                    # Completing the matrix replaces the fringe bounds with the final cost, which is progress:
+                    final_bounds = self.bounds()
+                    ret = final_bounds.upper_bound < initial_bounds.upper_bound or \
+                        final_bounds.lower_bound > initial_bounds.lower_bound
                 return ret
 
             if not first_fringe:
